@@ -147,51 +147,4 @@ def eSAssoc (a : SAssoc) : Sexp := .list [eSEnd a.src, eSEnd a.tgt]
 def eSGroup (g : SGroup) : Sexp := .list (ofNat g.rel :: g.items.map eSAssoc)
 def eSchema (s : Schema) : Sexp := .list [.list (s.classes.map eSClass), .list (s.groups.map eSGroup)]
 
-def dSAttr : Sexp → Option SAttr
-  | list [n, t] => do some { name := ← dStr n, ty := ← dStr t }
-  | _ => none
-
-def dSIdent : Sexp → Option SIdent
-  | list (n :: ns) => do some { num := ← dNat n, names := ← ns.mapM dStr }
-  | _ => none
-
-def dSClass : Sexp → Option SClass
-  | list [k, as, ids] => do some { kl := ← dStr k, attrs := ← dList dSAttr as, idents := ← dList dSIdent ids }
-  | _ => none
-
-def dSEnd : Sexp → Option SEnd
-  | list [k, ks, m, c, p] => do
-    some { kind := ← dStr k, keys := ← dList dStr ks, many := ← dBool m, cond := ← dBool c, phrase := ← dStr p }
-  | _ => none
-
-def dSAssoc : Sexp → Option SAssoc
-  | list [s, t] => do some { src := ← dSEnd s, tgt := ← dSEnd t }
-  | _ => none
-
-def dSGroup : Sexp → Option SGroup
-  | list (r :: items) => do some { rel := ← dNat r, items := ← items.mapM dSAssoc }
-  | _ => none
-
-def dSchema : Sexp → Option Schema
-  | list [cs, gs] => do some { classes := ← dList dSClass cs, groups := ← dList dSGroup gs }
-  | _ => none
-
-def dSite : Sexp → Option (String × String)
-  | list [k, n] => do some (← dStr k, ← dStr n)
-  | _ => none
-
-def dSEdit : Sexp → Option SEdit
-  | sym "nop" => some .nop
-  | list [sym "rename", k, o, n] => do some (.renameAttr (← dStr k) (← dStr o) (← dStr n))
-  | list [sym "retype", sites, t] => do some (.retype (← dList dSite sites) (← dStr t))
-  | list [sym "reorder", k, ns] => do some (.reorder (← dStr k) (← dList dStr ns))
-  | list [sym "mult", r, e, v] => do some (.setMult (← dNat r) (← dEndSel e) (← dBool v))
-  | list [sym "cond", r, e, v] => do some (.setCond (← dNat r) (← dEndSel e) (← dBool v))
-  | list [sym "phrase", r, e, v] => do some (.setPhrase (← dNat r) (← dEndSel e) (← dStr v))
-  | list [sym "drop-class", k] => do some (.dropClass (← dStr k))
-  | list [sym "insert-class", p, c] => do some (.insertClass (← dNat p) (← dSClass c))
-  | list [sym "drop-group", r] => do some (.dropGroup (← dNat r))
-  | list [sym "insert-group", p, g] => do some (.insertGroup (← dNat p) (← dSGroup g))
-  | _ => none
-
 end Pyx.Extract.Wire
